@@ -29,7 +29,7 @@ MARK = dict(BEGIN=1, END=2, REPORT=3, INJECT=4, SNAPFD=5, BYTES=6, DISARM=7, SNA
 
 class Ev:
     __slots__ = ("k", "seq", "tgid", "tid", "nr", "args", "ret", "inj", "kind", "a", "new", "what", "status",
-                 "sig", "tag", "fds", "data", "maps", "n", "state", "text")
+                 "sig", "tag", "fds", "data", "maps", "n", "state", "text", "post", "told")
 
     def __init__(self, k, seq):
         self.k = k
@@ -56,6 +56,10 @@ def parse(path):
                     if k == "S":
                         e.ret = int(p[11])
                         e.inj = p[12] == "i"
+                        # "p<value>": the call was executed (e.ret is the kernel's real result) and the caller
+                        # was then told <value> instead
+                        e.post = p[12].startswith("p")
+                        e.told = int(p[12][1:]) if e.post else e.ret
                 elif k == "M":
                     e.tgid, e.tid, e.kind = int(p[2]), int(p[3]), int(p[4])
                     e.a = [int(x) for x in p[5:10]]
